@@ -896,8 +896,18 @@ func (h *hydra) createNewSwamp(islandID uint64, swampName name.Name) swamp.Swamp
 		fss.WriteInterval = swampSettings.GetWriteInterval()
 	}
 
+	// The close callback removes the map entry only while it still IS this instance. The callback
+	// can run more than once for one instance (Close() and later Destroy() on a stale handle both end
+	// in it); deleting by name would then unmap the instance that was summoned in between, and the
+	// next SummonSwamp would construct a second live instance next to it.
+	var created swamp.Swamp
+	closeCallback := func(n name.Name) {
+		h.swamps.CompareAndDelete(n.Get(), created)
+	}
+
 	// create the swamp with the filesystem
-	return swamp.New(swampName, swampSettings.GetCloseAfterIdle(), fss, h.eventCallbackFunction, h.infoCallbackFunction, h.closeEventCallbackFunction, metadataInterface)
+	created = swamp.New(swampName, swampSettings.GetCloseAfterIdle(), fss, h.eventCallbackFunction, h.infoCallbackFunction, closeCallback, metadataInterface)
+	return created
 
 }
 
@@ -1097,7 +1107,3 @@ func (h *hydra) infoCallbackFunction(si *swamp.Info) {
 
 }
 
-// closeEventCallbackFunction removes the swamp from the opened swamps map
-func (h *hydra) closeEventCallbackFunction(swampName name.Name) {
-	h.swamps.Delete(swampName.Get())
-}
